@@ -152,8 +152,14 @@ pub fn case_for(ctx: &mut Ctx, case_seed: u64, own: bool) {
     let mut rng = Rng(case_seed);
     let ty = TYPES[rng.usize_below(TYPES.len())];
     let desc = rng.chance(1, 2);
-    // probe (inert unless C17_PROBE_MULTI is set): multi-valued sort fields with disjoint ranges
-    let probe_multi = std::env::var("C17_PROBE_MULTI").is_ok();
+    // multi-valued sort fields with disjoint ranges: every case with C17_PROBE_MULTI set; since
+    // the repair of the live-null scan (/repo 3dc01ec26, `fixed:` in KNOWN_FINDINGS.txt) also one
+    // own case in eight of the default run (u64 sort field, a third of the valued documents carry
+    // the value twice => Cardinality::Multivalued), so that the finding is reported if it returns
+    let probe_env = std::env::var("C17_PROBE_MULTI").is_ok();
+    let probe_multi = probe_env || (own && case_seed % 8 == 3);
+    let ty = if probe_multi && !probe_env { "u64" } else { ty };
+    if probe_multi { ctx.report.count("shaped:multivalued-sort-column-cases"); }
     let profile = if probe_multi { 3 } else { rng.below(4) };
     // shaped mode: numeric sort field, disjoint value ranges across segments, and in every segment
     // a delete set chosen so that the first live document WITHOUT value sits at a doc id >= the
